@@ -10,6 +10,7 @@ import Tahoe.Immutable.HelperClient
        `none` (no UEB).  Output `present` | `need-new` | `need-active`.
     `presentp ACTIVE ANSWERS TOTAL` — the same with ANSWERS = `-` or `server.shnum` pairs joined by `,`
        (one per share file found).
+    `pick HASHELPER SIZE` — which uploader `Uploader.upload` picks: `literal` | `assisted` | `direct`.
     `reader CHUNK PTHEX KSHEX off:len,…` — the client-side reader (EncryptAnUploadable with CHUNKSIZE = CHUNK behind a
        RemoteEncryptedUploadable) answering a sequence of remote_read_encrypted(off, len); output hex per call (`N` = refused). -/
 open Tahoe.Drv Tahoe.Helper
@@ -68,6 +69,14 @@ def handle : List String → String
         | .present _ => "present"
         | .needUpload true => "need-new"
         | .needUpload false => "need-active"
+    | _, _ => "bad-op"
+  | ["pick", h, sz] =>
+    match (if h == "1" then some true else if h == "0" then some false else none), sz.toNat? with
+    | some hasHelper, some size =>
+      match pickUploader hasHelper size with
+      | .literal => "literal"
+      | .assisted => "assisted"
+      | .direct => "direct"
     | _, _ => "bad-op"
   | ["reader", c, pth, ksh, rs] =>
     let reads : Option (List (Nat × Nat)) := (rs.splitOn ",").mapM (fun e => match e.splitOn ":" with
